@@ -130,9 +130,7 @@ class TCPServer:
             self.writer.close()
             await self.writer.wait_closed()
         except (
-            BrokenPipeError,
-            ConnectionAbortedError,
-            ConnectionResetError,
+            OSError,  # Whatever lost the connection, e.g. reset, timed out, unreachable
             RuntimeError,
             asyncio.CancelledError,
         ):
